@@ -159,5 +159,109 @@ def rule_ch1(prog):
     return res
 
 
+def rule_ch1_twin(prog):
+    """R-CH1-TWIN: handle_chord decides *that* chording ends, decompose_chord_into_action_queue re-scans the same
+    queue to decide *what* was typed. Both scans are try_fold closures that stop with Err(..); they must stop under
+    the same conditions, otherwise decomposition consumes events the first scan never accounted for."""
+    from kq.analysis import discr_switches
+    res = RuleResult("R-CH1-TWIN", "the two v1 chord scans over the queue abort under the same conditions", floor=2)
+    W = "kanata_keyberon::layout::WaitingState::"
+    sigs = {}
+    for nm in ("handle_chord", "decompose_chord_into_action_queue"):
+        f = prog.fn(W + nm)
+        for bi, t in f.calls():
+            if (callee_name(t) or "").split("::")[-1] != "try_fold":
+                continue
+            for a in t["args"][1:]:
+                c = closure_arg(prog, f, a)
+                if c is None:
+                    continue
+                sws = []
+                for adt in ("kanata_keyberon::layout::Event", "core::option::Option"):
+                    sws += [(adt.split("::")[-1], sw) for sw in discr_switches(prog, c, adt)]
+                errs = []
+                for b2, s2, st in c.all_rvalues():
+                    rv = st["rv"]
+                    if rv["k"] == "agg" and rv.get("adt") == "core::result::Result" and rv.get("v") == "Err":
+                        sig = set()
+                        for (an, sw) in sws:
+                            for v in sw.all_variants:
+                                if b2 in sw.arm_region(v):
+                                    sig.add("%s::%s" % (an, v))
+                        errs.append("+".join(sorted(sig)) or "unconditional")
+                sigs[nm] = sorted(errs)
+                res.fn(c)
+                res.inst("scan/" + nm, aborts=sorted(errs))
+    if len(sigs) < 2:
+        res.viol("anchors", "keyberon/src/layout.rs", "could not find the try_fold scans of handle_chord and decompose_chord_into_action_queue")
+        return res
+    a_, b_ = sigs["handle_chord"], sigs["decompose_chord_into_action_queue"]
+    ok = a_ == b_
+    res.oblige(ok)
+    if not ok:
+        res.viol("abort-conditions-differ", "keyberon/src/layout.rs",
+                 "handle_chord's scan aborts under %s but decompose_chord_into_action_queue's scan aborts under %s: the decomposition "
+                 "looks at a different stretch of the queue than the scan that ended chording" % (a_, b_))
+    return res
+
+
+def rule_ch1_start(prog):
+    """R-CH1-START: the list of coordinates that receive the chord's action starts with the coordinate of the key that
+    opened the chord, i.e. WaitingState.coord as it was on entry - handle_chord overwrites that field with the
+    released key's coordinate before the list is built."""
+    from kq.core import proj_fields
+    res = RuleResult("R-CH1-START", "the chord action is attached to the first pressed key's coordinate", floor=1)
+    WSTATE = "kanata_keyberon::layout::WaitingState"
+    f = prog.fn(WSTATE + "::handle_chord")
+    res.fn(f)
+    stores = set()
+    for bi, si, st in f.all_rvalues():
+        pf = proj_fields(st["p"])
+        if pf and pf[-1][0] == WSTATE and pf[-1][2] == "coord":
+            stores.add(bi)
+    after_store = set()
+    for sb in stores:
+        after_store |= f.reach_from(sb)
+    n = 0
+    for bi, t in f.calls():
+        if not (callee_name(t) or "").endswith("ArrayDeque::push_back"):
+            continue
+        if "PressedQueue" not in (f.place_ty(t["args"][0]) or "") and "(u8, u16)" not in (t.get("ga") or ""):
+            continue
+        # where is the pushed value read from?
+        src_blocks = []
+        seen, work = set(), [t["args"][1]]
+        while work:
+            o = work.pop()
+            if not isinstance(o, dict) or "l" not in o:
+                continue
+            if any(x[0] == WSTATE and x[2] == "coord" for x in proj_fields(o)):
+                src_blocks.append(None)
+            if o["l"] in seen:
+                continue
+            seen.add(o["l"])
+            for (bb, idx, kind, payload) in f.defs().get(o["l"], []):
+                if kind == "assign":
+                    from kq.core import rvalue_operands
+                    for x in rvalue_operands(payload):
+                        if isinstance(x, dict) and any(y[0] == WSTATE and y[2] == "coord" for y in proj_fields(x)):
+                            src_blocks.append(bb)
+                        work.append(x)
+        reads = [b for b in src_blocks if b is not None]
+        if not reads:
+            continue
+        n += 1
+        ok = all(b not in after_store for b in reads)
+        res.inst("first-coordinate#%d" % n, where="%s:%s" % (f.file, t.get("ln")), read_before_overwrite=ok, stores=len(stores))
+        res.oblige(ok)
+        if not ok:
+            res.viol("first-coordinate#%d" % n, "%s:%s" % (f.file, t.get("ln")),
+                     "the coordinate list is seeded from WaitingState.coord after handle_chord may have overwritten it with the "
+                     "released key's coordinate: the first pressed key no longer holds the chord's action")
+    if n == 0:
+        res.viol("anchors", f.loc, "no coordinate list seeded from WaitingState.coord found in handle_chord")
+    return res
+
+
 def run_all(prog):
-    return [rule_rel(prog), rule_disabled(prog), rule_ch1(prog)]
+    return [rule_rel(prog), rule_disabled(prog), rule_ch1(prog), rule_ch1_twin(prog), rule_ch1_start(prog)]
